@@ -34,12 +34,45 @@ struct Item {
     passed: Option<Lbl>,
     /// last label of a receiver in lock-step (for substituted packets)
     rx_last: Option<Lbl>,
+    /// produced by encap / encap_ext (a start or complete packet)
+    start_or_complete: bool,
 }
 
 fn check(rep: &Report, acc: &mut Acc, it: &Item, rank: u64) {
     let mgr = mgr_std();
     let Ok(p) = refm::parse(&it.bytes, &full_mand) else {
-        return; // C06's business
+        // a packet the reference parser cannot read is C06's business as far as its bytes go; but the statement speaks
+        // of EVERY packet the encapsulator produces: when the sender was given a full label in a state where nothing
+        // can be replaced (no label remembered), peek must return that label and decap must associate it too
+        if let (Some(l), None) = (it.passed, it.rx_last) {
+            if l != Lbl::ReUse && it.start_or_complete {
+                let st = 70000;
+                let mut d = RxS::new(2, st, &[st, st]).build(DefaultCrc {}, mgr.clone());
+                let pk = match catch(|| d.get_label_or_frag_id(&it.bytes)) {
+                    Err(pn) => Peek::Panic(pn.0),
+                    Ok(Ok(LabelorFragId::Lbl(x))) => Peek::Lbl(Lbl::from_label(x)),
+                    Ok(Ok(LabelorFragId::FragId(f))) => Peek::FragId(f),
+                    Ok(Err(e)) => Peek::Err(format!("{:?}", e)),
+                };
+                let out = do_decap(&mut d, &it.bytes);
+                acc.states += 1;
+                acc.transitions += 2;
+                acc.calls += 2;
+                acc.compared += 1;
+                let dlabel = match &out {
+                    DecapOut::Completed { meta, .. } | DecapOut::Fragmented { meta, .. } => Some(meta.label),
+                    _ => None,
+                };
+                let wit = || json!({"packet": hex(&it.bytes[..it.bytes.len().min(64)]), "packet_len": it.bytes.len(), "origin": it.desc, "tail": "", "peek": format!("{:?}", pk), "decap": out.brief()});
+                if pk != Peek::Lbl(l) {
+                    rep.violation("C19|label|packet-not-readable-by-the-reference|peek", rank, || (format!("{}: peek returns {:?}, the label passed (and not replaceable in this state) is {}", it.desc, pk, l.short()), wit()));
+                }
+                if dlabel != Some(l) {
+                    rep.violation(&format!("C19|label|packet-not-readable-by-the-reference|decap|{}", out.class()), rank, || (format!("{}: peek returns {:?}, decap associates {:?} ({})", it.desc, pk, dlabel.map(|x| x.short()), out.brief()), wit()));
+                }
+            }
+        }
+        return;
     };
     for t in tails() {
         let mut input = it.bytes.clone();
@@ -281,7 +314,7 @@ pub fn run(tier: Tier) -> i32 {
                 let mut buf = vec![0u8; b];
                 let out = do_encap(&mut enc, &pd, fid, 0x0800, l, &mut buf);
                 if let Some(n) = out.len() {
-                    let it = Item { bytes: buf[..n.min(b)].to_vec(), desc: format!("encap(pdu_len={}, label={}, prior={:?}, frag_id={}, buffer={}) -> {:?}", p, l.short(), prior, fid, b, out), passed: Some(l), rx_last: if prior == Prior::Same { Some(l) } else if l == Lbl::ReUse { Some(L6B) } else { None } };
+                    let it = Item { bytes: buf[..n.min(b)].to_vec(), desc: format!("encap(pdu_len={}, label={}, prior={:?}, frag_id={}, buffer={}) -> {:?}", p, l.short(), prior, fid, b, out), passed: Some(l), rx_last: if prior == Prior::Same { Some(l) } else if l == Lbl::ReUse { Some(L6B) } else { None }, start_or_complete: true };
                     check(&rep, &mut acc, &it, (p * 100 + b) as u64);
                 }
             }
@@ -305,7 +338,7 @@ pub fn run(tier: Tier) -> i32 {
                     let mut buf2 = vec![0u8; b2];
                     let o2 = do_encap_frag(&enc, &pd, c, &mut buf2);
                     if let Some(n2) = o2.len() {
-                        let it = Item { bytes: buf2[..n2.min(b2)].to_vec(), desc: format!("encap_frag(pdu_len={}, pos={}, frag_id={}, buffer={}) -> {:?}", p, c.pos, c.id, b2, o2), passed: None, rx_last: None };
+                        let it = Item { bytes: buf2[..n2.min(b2)].to_vec(), desc: format!("encap_frag(pdu_len={}, pos={}, frag_id={}, buffer={}) -> {:?}", p, c.pos, c.id, b2, o2), passed: None, rx_last: None, start_or_complete: false };
                         check(&rep, &mut acc, &it, (p * 100) as u64);
                     }
                     if let EncOut::Fragmented(_, c2) = o2 {
@@ -317,7 +350,7 @@ pub fn run(tier: Tier) -> i32 {
                 let _ = n;
             }
             if let Some(n) = out.len() {
-                let it = Item { bytes: buf[..n.min(b)].to_vec(), desc: format!("encap(pdu_len={}, label={}, prior={:?}, frag_id=167, buffer={}) -> {:?}", p, l.short(), prior, b, out), passed: Some(l), rx_last: if prior == Prior::Same { Some(l) } else if l == Lbl::ReUse { Some(L6B) } else { None } };
+                let it = Item { bytes: buf[..n.min(b)].to_vec(), desc: format!("encap(pdu_len={}, label={}, prior={:?}, frag_id=167, buffer={}) -> {:?}", p, l.short(), prior, b, out), passed: Some(l), rx_last: if prior == Prior::Same { Some(l) } else if l == Lbl::ReUse { Some(L6B) } else { None }, start_or_complete: true };
                 check(&rep, &mut acc, &it, (p * 100) as u64);
             }
         }
@@ -335,7 +368,7 @@ pub fn run(tier: Tier) -> i32 {
                     let mut buf = vec![0u8; b];
                     let out = do_encap(&mut enc, &pd, 3, 0x0800, l, &mut buf);
                     if let Some(n) = out.len() {
-                        let it = Item { bytes: buf[..n.min(b)].to_vec(), desc: format!("encap(pdu_len={}, label={}, prior={:?}, buffer={}) -> {:?}", p, l.short(), prior, b, out), passed: Some(l), rx_last: if prior == Prior::Same { Some(l) } else { None } };
+                        let it = Item { bytes: buf[..n.min(b)].to_vec(), desc: format!("encap(pdu_len={}, label={}, prior={:?}, buffer={}) -> {:?}", p, l.short(), prior, b, out), passed: Some(l), rx_last: if prior == Prior::Same { Some(l) } else { None }, start_or_complete: true };
                         check(&rep, &mut acc, &it, (p * 100 + b) as u64);
                     }
                 }
@@ -356,7 +389,7 @@ pub fn run(tier: Tier) -> i32 {
                     let mut buf = vec![0u8; b];
                     let out = do_encap_frag(&enc, &pd, Ctx { id: fid, crc: 0x0BAD_F00D, pos: pos as u16 }, &mut buf);
                     if let Some(n) = out.len() {
-                        let it = Item { bytes: buf[..n.min(b)].to_vec(), desc: format!("encap_frag(pdu_len={}, pos={}, frag_id={}, buffer={}) -> {:?}", p, pos, fid, b, out), passed: None, rx_last: None };
+                        let it = Item { bytes: buf[..n.min(b)].to_vec(), desc: format!("encap_frag(pdu_len={}, pos={}, frag_id={}, buffer={}) -> {:?}", p, pos, fid, b, out), passed: None, rx_last: None, start_or_complete: false };
                         check(&rep, &mut acc, &it, (p * 100 + b) as u64);
                     }
                 }
@@ -384,7 +417,7 @@ pub fn run(tier: Tier) -> i32 {
                     let mut buf = vec![0u8; b];
                     let out = do_encap_ext(&mut enc, &pd, 9, pt, l, &mut buf, c);
                     if let Some(n) = out.len() {
-                        let it = Item { bytes: buf[..n.min(b)].to_vec(), desc: format!("encap_ext(pdu_len={}, label={}, prior={:?}, buffer={}, extensions={:?}) -> {:?}", p, l.short(), prior, b, c.iter().map(|e| e.0).collect::<Vec<_>>(), out), passed: Some(l), rx_last: if prior == Prior::Same { Some(l) } else { None } };
+                        let it = Item { bytes: buf[..n.min(b)].to_vec(), desc: format!("encap_ext(pdu_len={}, label={}, prior={:?}, buffer={}, extensions={:?}) -> {:?}", p, l.short(), prior, b, c.iter().map(|e| e.0).collect::<Vec<_>>(), out), passed: Some(l), rx_last: if prior == Prior::Same { Some(l) } else { None }, start_or_complete: true };
                         check(&rep, &mut acc, &it, (ci * 100 + b) as u64);
                     }
                 }
